@@ -19,10 +19,11 @@ CCCmds == { <<W("GET"), K("k1")>>, <<W("MGET"), K("k1"), K("k2")>>,
             <<W("RENAME"), K("k1"), K("k2")>>, <<W("RENAME"), K("k2"), K("k1")>>,
             <<W("RPUSH"), K("k1"), V(<<101>>)>>, <<W("RPUSH"), K("k2"), V(<<102>>)>> }
 
-\* unordered pairs (a command may race with a copy of itself)
+\* ordered pairs (thorough) and unordered pairs (quick); a command may race with a copy of itself
 CCSeq == SetToSeq(CCCmds)
-CCPairs == {<<CCSeq[i], CCSeq[j]>> : i \in 1..Len(CCSeq), j \in 1..Len(CCSeq)} \cap
-           {<<CCSeq[i], CCSeq[j]>> : i \in 1..Len(CCSeq), j \in 1..Len(CCSeq)}
+CCPairs == {<<CCSeq[i], CCSeq[j]>> : i \in 1..Len(CCSeq), j \in 1..Len(CCSeq)}
+CCPairsQuick == {<<CCSeq[i], CCSeq[j]>> : i \in 1..Len(CCSeq), j \in 1..Len(CCSeq)} \cap
+                {pr \in CCPairs : \E i \in 1..Len(CCSeq), j \in 1..Len(CCSeq) : i <= j /\ pr = <<CCSeq[i], CCSeq[j]>>}
 
 CCInits ==
     { EmptyStore,
